@@ -30,10 +30,10 @@ static LD const TINY_ = 2.2250738585072014e-308L;
 #define VP_K 32
 #endif
 
-enum { L_FIELD, L_POWLOG, L_TRIG, L_ITRIG, L_HYP, L_IHYP, L_REALARG, L_PAIRS, L_Q1, L_Q2, L_Q3, L_Q4, L_NEAR_AXIS, L_ON_AXIS, L_SMALL, L_LARGE, L_NEAR_SWITCH, L_PUSHED_OFF_CUT, L_WIDE_MODULUS };
+enum { L_FIELD, L_POWLOG, L_TRIG, L_ITRIG, L_HYP, L_IHYP, L_REALARG, L_PAIRS, L_Q1, L_Q2, L_Q3, L_Q4, L_NEAR_AXIS, L_ON_AXIS, L_SMALL, L_LARGE, L_NEAR_SWITCH, L_PUSHED_OFF_CUT, L_WIDE_MODULUS, L_ALGO_CORNER };
 static char const *const labels[] = {"field_arithmetic", "sqrt_pow_exp_log", "trigonometric", "inverse_trigonometric", "hyperbolic", "inverse_hyperbolic", "real_argument_variants",
                                      "inverse_pairs", "quadrant_1", "quadrant_2", "quadrant_3", "quadrant_4", "near_axis", "exactly_on_axis", "modulus_lt_0.5", "modulus_gt_2",
-                                     "modulus_near_formula_switch", "moved_off_branch_cut", "modulus_beyond_2^+-27", nullptr};
+                                     "modulus_near_formula_switch", "moved_off_branch_cut", "modulus_beyond_2^+-27", "inverse_family_algorithm_region_corner", nullptr};
 static char const *const metrics[] = {"field_err", "powlog_err", "trig_err", "itrig_err", "hyp_err", "ihyp_err", "realarg_err", "pairs_err", nullptr};
 static uint8_t const dict[] = {0, 1, 2, 3, 4, 5, 6, 7};
 static vp_info const info = {"C10", VP_CFG, "", labels, metrics, 96, dict, sizeof(dict)};
@@ -224,6 +224,28 @@ static a_complex gen_z(Tape &t, Ctx &cx, bool &offaxis_interesting, bool wide = 
     return z;
 }
 
+// Grey-box class for the inverse families: the usual algorithm for asin/acos (Hull, Fairgrieve, Tang) splits the plane
+// by a = (|z+1| + |z-1|)/2 against 1.5, b = |Re z| / a against 0.6417 and |Re z| against 1. Points are constructed on these
+// curves and at their pairwise intersections (within 1e-6 .. 1e-16 relative), where two branch decisions meet. This steers the
+// generator only; the oracle stays the long double reference.
+static bool corner_point(Tape &t, LD &x, LD &y)
+{
+    auto eps = [&]() { LD e = powl(10.0L, -(6.0L + 10.0L * t.u8() / 255.0L)); return t.coin() ? e : -e; };
+    LD a, b;
+    switch (t.u8() % 6)
+    {
+    case 0: x = 1 + (t.u8() % 4 ? eps() : 0); a = 1.5L * (1 + eps()); break;
+    case 1: a = 1.5L * (1 + eps()); b = 0.6417L * (1 + eps()); x = a * b; break;
+    case 2: x = 1 + (t.u8() % 4 ? eps() : 0); b = 0.6417L * (1 + eps()); a = x / b; break;
+    case 3: a = 1.5L * (1 + eps()); x = a * t.u16() / 65535.0L; break;
+    case 4: b = 0.6417L * (1 + eps()); a = 1 + 2.0L * t.u16() / 65535.0L; x = a * b; break;
+    default: x = 1 + eps(); y = powl(10.0L, -8.0L + 9.0L * t.u8() / 255.0L); return true;
+    }
+    if (!(a > 1) || !(x < a) || !(x >= 0)) { return false; }
+    y = sqrtl((a * a - 1) * (1 - x * x / (a * a)));
+    return y > 0;
+}
+
 // keep a relative distance >= 2e-6 from the function's branch cut (construction, counted)
 static bool push_off_cut(Cut cut, a_complex &z, bool side, Ctx &cx)
 {
@@ -302,6 +324,23 @@ static void case_fn(Tape &t, Ctx &cx)
     a_complex z = gen_z(t, cx, inter, wide), w = {1, 0};
     a_real s = 1;
     bool side = t.coin();
+    if ((f.family == 3 || f.family == 5) && t.u8() % 5 == 0)
+    {
+        LD cxr, cyi;
+        if (corner_point(t, cxr, cyi))
+        {
+            C w0((t.coin() ? -cxr : cxr), (t.coin() ? -cyi : cyi)); // the argument the asin/acos kernel sees
+            C zz = w0;
+            // map back through the reductions used by the other members of the family
+            if (!strcmp(f.name, "asinh")) { zz = w0 * C(0, -1); }                 // asinh z = -i asin(iz)
+            else if (!strcmp(f.name, "acsc") || !strcmp(f.name, "asec") || !strcmp(f.name, "asech")) { zz = C(1) / w0; }
+            else if (!strcmp(f.name, "acsch")) { zz = C(1) / (w0 * C(0, -1)); }
+            z.real = a_real(zz.real());
+            z.imag = a_real(zz.imag());
+            inter = true;
+            cx.label(L_ALGO_CORNER);
+        }
+    }
     push_off_cut(f.cut, z, side, cx);
     if (f.arity == 2)
     {
